@@ -48,6 +48,7 @@ func VP_C14_step() {
 	vp.Assert(err == nil, "WriteSector err==nil")
 	// post-state
 	vpValidAnvil(mem.b)
+	vpCheckOccupancy(r, S+4)
 	written := vpChunk{x: x, z: z, length: n, first: data[0], end: data[n-1]}
 	vpExpectChunk(r, written, "written chunk")
 	for _, c := range chunks {
@@ -101,6 +102,14 @@ func VP_C14_toolarge() {
 	vp.Assert(len(mem.b) == len(before), "file size unchanged")
 	vp.Assert(r.offsets == off0, "offsets unchanged")
 	vpExpectChunk(r, chunks[0], "existing chunk after refusal")
+	vpCheckOccupancy(r, 9)
+	// and a later write must not be handed the refused chunk's sectors
+	n := []int{1, 4093}[vp.Choice(2)]
+	data := make([]byte, n)
+	data[0], data[n-1] = 0x5a, 0x5a
+	vp.Assert(r.WriteSector(vpCoords[3][0], vpCoords[3][1], data) == nil, "a later write succeeds")
+	vpExpectChunk(r, chunks[0], "existing chunk after a later write")
+	vpValidAnvil(mem.b)
 	vp.Cover("end")
 }
 
@@ -127,6 +136,7 @@ func VP_C14_hist2() {
 		model[ci] = vpChunk{x: vpCoords[ci][0], z: vpCoords[ci][1], length: n, first: data[0], end: data[n-1]}
 		have[ci] = true
 		vpValidAnvil(mem.b)
+		vpCheckOccupancy(r, 8)
 		for k := range model {
 			if have[k] {
 				vpExpectChunk(r, model[k], "history")
